@@ -89,6 +89,8 @@ def run(ctx, rep):
                   sample={"model": model, "bodies": cnt})
         if badn is None:
             rep.floor("N", "doc bodies evaluated", cnt, 50)
+    import loopstate
+    loopstate.rule(ctx, rep, "C18", ['javadoc'])
     rep.assumptions += ["for the constructs used (character classes, greedy star / optional, one capture group, leftmost non-overlapping replace_all / split) Python's re and the regex crate agree (rule N evaluates the extracted constants with Python's re)"]
     rep.assumptions += ["TB-1 rustc MIR", "TB-2 @L of the first symbol is the start of the construct's first token"]
     rep.not_decided += ["the backward scanner on prefixes outside the simulated family (rule K is exhaustive only within the bounded structured family; arbitrary garbage between comment and construct is not covered)",
